@@ -19,6 +19,8 @@ BASE = "agilerl.algorithms.core.base"
 def run(ck: Check, repo: Repo) -> None:
     ck.not_decided += ["numeric drift over generations (follows from C06.1-2 but is not computed)",
                        "that grow and shrink are equally likely (probabilistic)"]
+    ck.rule("C06.6", "the learning-rate name an optimizer is registered under is the one of its construction site: algorithms with several learning "
+                     "rates pass lr_name= explicitly (run-time inference by the identity of a float cannot tell two equal learning rates apart) and the wrapper uses the given name")
     ck.rule("C06.1", "RLParameter.mutate: the candidate is value*shrink_factor or value*grow_factor (or a bound), the result is a "
                      "recognised clip to [min, max], converted with self.dtype, stored and returned")
     ck.rule("C06.2", "the value that is mutated is the individual's own current value: it is (re)loaded from getattr(individual, name) "
@@ -33,6 +35,7 @@ def run(ck: Check, repo: Repo) -> None:
     _hp_mutation(ck, repo)
     _reinit_opt(ck, repo)
 
+    _lr_names(ck, repo)
 
 def _is_attr(tb: TermBuilder, p: Poly, name: str) -> bool:
     a = single_atom(tb, p)
@@ -286,6 +289,37 @@ def _covers_all_matches(cfg: CFG, n: Node, opt: ast.AST, name_v: str, call: ast.
     return False, f"unrecognised selection `{short(opt, 80)}`"
 
 
+def _lr_names(ck: Check, repo: Repo) -> None:
+    regs = extract_all(repo)
+    n = 0
+    for cname, reg in regs.items():
+        lrs = sorted({o.lr for o in reg.opts if o.lr})
+        if len(lrs) < 2:
+            continue
+        n += 1
+        missing = [o for o in reg.opts if get_kw(o.node, "lr_name") is None]
+        ck.ob("C06.6", reg.init, missing[0].node if missing else reg.init.node, not missing,
+              f"{cname}: every optimizer is registered under the learning rate written at its construction site ({', '.join(lrs)})",
+              detail=f"{[o.name for o in missing]} are built with lr=self.<name> only; OptimizerWrapper._infer_lr_name then looks for the attribute that IS that float object: "
+                     f"with {' == '.join(lrs)} given as equal literals both optimizers register under `{lrs[0]}`, so a mutation of `{lrs[-1]}` re-creates no optimizer and the "
+                     "critic keeps stepping with the old learning rate",
+              construct=f"{cname}: lr name of optimizers inferred at run time")
+    ck.floor("C06.6", n, 4, "algorithms with several learning rates")
+    # the wrapper honours an explicitly given name on every path
+    wi = repo.fn("agilerl.algorithms.core.wrappers", "OptimizerWrapper.__init__")
+    wcfg = CFG(wi.node)
+    stores = [n_ for n_ in wcfg.live_nodes() if n_.kind == "stmt" and isinstance(n_.ast, ast.Assign) and dotted(n_.ast.targets[0]) == "self.lr_name"]
+    for st in stores:
+        v = st.ast.value
+        gs = [(ast.unparse(g).replace(" ", ""), pol) for g, pol, _ in wcfg.guards_at(st)]
+        ok = dotted(v) == "lr_name" or (isinstance(v, ast.IfExp) and "lr_name" in ast.unparse(v.test) and (dotted(v.body) == "lr_name" or dotted(v.orelse) == "lr_name")) \
+            or any((t == "lr_nameisNone" and pol) or (t == "lr_nameisnotNone" and not pol) for t, pol in gs)
+        ck.ob("C06.6", wi, st.ast, ok, "OptimizerWrapper.__init__ uses an explicitly given lr_name instead of inferring one",
+              detail=f"`{short(st.ast, 80)}` ignores the lr_name argument on this path (it is only honoured together with network_names)",
+              construct=f"OptimizerWrapper.__init__: {short(st.ast, 60)}")
+    ck.floor("C06.6", len(stores), 2, "assignments of self.lr_name in OptimizerWrapper.__init__", fn=wi)
+
+
 def _reads_attr(e: ast.AST, attr: str) -> bool:
     return any(isinstance(x, ast.Attribute) and x.attr == attr for x in ast.walk(e))
 
@@ -374,6 +408,8 @@ def _reinit_opt(ck: Check, repo: Repo) -> None:
 _MF = "agilerl/hpo/mutation.py"
 _RF = "agilerl/algorithms/core/registry.py"
 VARIANTS = [
+    ("wrapper-ignores-explicit-lr-name", "agilerl/algorithms/core/wrappers.py", "            self.lr_name = (\n                lr_name\n                if lr_name is not None\n                else self._infer_lr_name(parent_container)\n            )", "            self.lr_name = self._infer_lr_name(parent_container)", "fire", "C06.6"),
+    ("ddpg-critic-optimizer-lr-name-inferred", "agilerl/algorithms/ddpg.py", "            lr=lr_critic,\n            lr_name=\"lr_critic\",\n", "            lr=lr_critic,\n", "fire", "C06.6"),
     ("lr-in-place-first-group-only", _MF, "                    # Reinitialise every optimizer that uses the new learning rate\n                    self.reinit_opt(individual, optimizer=opt_config)", "                    opt = getattr(individual, opt_config.name)\n                    opt.optimizer.param_groups[0][\"lr\"] = new_value\n                    opt.lr = new_value", "fire", "C06.4"),
     ("lr-in-place-all-groups-ok", _MF, "                    # Reinitialise every optimizer that uses the new learning rate\n                    self.reinit_opt(individual, optimizer=opt_config)", "                    opt = getattr(individual, opt_config.name)\n                    for torch_opt in (opt.optimizer if isinstance(opt.optimizer, list) else [opt.optimizer]):\n                        for group in torch_opt.param_groups:\n                            group[\"lr\"] = new_value\n                    opt.lr = new_value", "silent", None),
     ("no-clip", _RF, "        new_value = min(max(new_value, self.min), self.max)\n", "", "fire", "C06.1"),
